@@ -11,11 +11,13 @@ func TestMain(m *testing.M) { vkit.Main(m) }
 func TestProp_RoundTrip(t *testing.T) { PartRT.Run(t) }
 func TestProp_Token(t *testing.T)     { PartToken.Run(t) }
 func TestProp_B64Scan(t *testing.T)   { PartB64.Run(t) }
+func TestProp_Long(t *testing.T)      { PartLong.Run(t) }
 
 func TestReplay(t *testing.T) {
 	PartRT.Replay(t, 1)
 	PartToken.Replay(t, 1)
 	PartB64.Replay(t, 1)
+	PartLong.Replay(t, 1)
 }
 
 // FuzzToken is the byte-level, coverage-guided entry of the "token" part: the
